@@ -415,6 +415,17 @@ def _run(seed, tier, a, t0, evidence_path):
     for i in range(n_pipe):
         w = writers[i % len(writers)] if i < 4 * len(writers) else rng.choice(writers)
         pipelines.append({"recipe": benign_recipe(rng), "writer": w, "ctor": benign_ctor(rng, w)})
+    # the recorded example of every open known finding is re-run each time, so that the KNOWN-FINDING line
+    # does not depend on the seed (and disappears by itself once the defect is repaired)
+    for f in load_known():
+        if f.get("status") == "open" and f.get("property") == "C20" and f.get("example"):
+            try:
+                with open(os.path.join(VERIF, f["example"])) as fh:
+                    ex_body = json.load(fh)
+                if "pipeline" in ex_body:
+                    pipelines.insert(0, ex_body["pipeline"])
+            except OSError:
+                pass
     ctx = multiprocessing.get_context("fork")
     ex = cf.ProcessPoolExecutor(max_workers=workers, mp_context=ctx)
     anomalies = []
